@@ -137,7 +137,10 @@ def gen_string(rng, lo=0, hi=12):
     if r < 0.1:
         return ""
     if r < 0.2:
-        return rng.choice(["a b", "(x)", "16'hFFFF", "1'b0", "%", "x;y", "  ", ")(", "a\tb"])
+        # %-delimited runs of digits: EDIF's own string-token escape form (%34% = a double quote); spydrnet
+        # writes and reads '%' verbatim, so such text must come back unchanged
+        return rng.choice(["a b", "(x)", "16'hFFFF", "1'b0", "%", "x;y", "  ", ")(", "a\tb",
+                           "%50%", "%75% of max", "duty_%50%_stage", "% 34 %", "a%65 66%b", "100%", "%%", "%-5%", "%+7% x"])
     return "".join(rng.choice(ORIGCH + "*?") for _ in range(rng.randint(lo, hi)))
 
 
@@ -927,7 +930,8 @@ def gen_name03(rng, used, kind="x", bus=False, scalar_net=False):
             s = rng.choice(["_", "$", "0", "7", ".", "[", "-"]) + "".join(rng.choice(IDCH) for _ in range(rng.randint(1, 5)))
         elif r < 0.85:
             base = rng.choice(LET) + "".join(rng.choice(IDCH) for _ in range(rng.randint(0, 4)))
-            s = base + rng.choice(["[0]", "[12]", "_3_", ".q", "/x", "<1>", "$", "(", ")", " z", "_sdn_1_", "[1:0]", "]", "-b"])
+            s = base + rng.choice(["[0]", "[12]", "_3_", ".q", "/x", "<1>", "$", "(", ")", " z", "_sdn_1_", "[1:0]", "]", "-b",
+                                   "_%50%_x", "%7%", "% 12 %", "%65 66%", "%"])
         else:
             s = "".join(rng.choice(NAMECH + "-") for _ in range(rng.randint(1, 9)))
         if getattr(rng, "_odd", False) and not from_pool and rng.random() < 0.3:
